@@ -152,8 +152,19 @@ impl<Args> RepeatTask<Args> {
     task: fn(&mut Args, usize) -> bool,
     args: Args,
   ) -> Self {
+    Self::with_first_delay(dur, dur, task, args)
+  }
+
+  /// Like `new`, but the first run is due after `first` instead of after one
+  /// period.
+  pub fn with_first_delay(
+    first: Duration,
+    dur: Duration,
+    task: fn(&mut Args, usize) -> bool,
+    args: Args,
+  ) -> Self {
     Self {
-      fur: new_timer(dur),
+      fur: new_timer(first),
       interval: dur,
       task,
       args,
